@@ -407,8 +407,8 @@ pub fn prop() -> Prop {
         describe,
         rule: "three parts. (a) categorical sampler: generated weight vectors (length 1..8, zeros, sums off one by 1e-15) x variates (random, or +-{0,3e-16,1e-9,1e-6} around a cumulative boundary) fed through a mock generator into the production sampler; the index must be the one whose cumulative interval contains the variate (either neighbour within 1e-12). (b) draw-log conformance: generated games x {Sampled, External, Full} x parameters x T in 1..12 x {1, 2..8 threads} with the production samplers running on per-site seeded generators; the reference model replays the recorded draws and must expect exactly the recorded set of (kind, infoset, pass) with the recorded weights (chance: declared normalised weights within 1e-12; player: the non-updating player's current strategy within 1e-6) and reach the same strategies. (c) fixed-seed distribution tests: chi-square over >= 20000 chance draws on five weight vectors, martingale statistic over external player draws, alarm beyond p < 1e-10. Non-trivial = (a) vectors with >= 3 entries, (b) a chance infoset met at two or more nodes in one pass; distinct by case content.",
         max_len: 900,
-        cases_quick: 12_000,
-        cases_thorough: 300_000,
+        cases_quick: 50_000,
+        cases_thorough: 800_000,
         assumptions: &["distribution tests are deterministic for a fixed seed; across seeds their false-alarm rate is below 1e-9 per run"],
         post: Some(distribution_checks),
         watchdog_s: 120,
